@@ -61,6 +61,20 @@ Theorem C04_schema_valid_partial : forall lex x,
 Proof. intros lex x. apply C04_included_sound. exact C04_grammar_in_schema. Qed.
 Print Assumptions C04_schema_valid_partial.
 
+(* the bookkeeping clause "all id attributes of the document are distinct" (part of book_ok,
+   recomputed on every written document) gives the validator's ID uniqueness, whatever the schema *)
+Theorem C04_distinct_ids_unique : forall S x, book_ok x = true -> ids_unique S x = true.
+Proof. exact distinct_ids_unique. Qed.
+Print Assumptions C04_distinct_ids_unique.
+
+(* so: a document that conforms to the emit grammar and whose bookkeeping agrees is schema-valid *)
+Theorem C04_conforming_consistent_valid : forall lex x,
+  conforms emit_grammar lex x = true -> book_ok x = true -> validate schema141 lex x = true.
+Proof.
+  intros lex x Hc Hb. apply C04_schema_valid_partial; auto. now apply C04_distinct_ids_unique.
+Qed.
+Print Assumptions C04_conforming_consistent_valid.
+
 (* ---- non-vacuity *)
 
 (* a float source with 2 rows of X Y Z *)
